@@ -23,7 +23,7 @@ func VH_C19_metaonly() {
 	add := func(p string, class int) {
 		// metadata is concrete here (symbolic metadata is covered by C07 and C20): the subject is
 		// selection, ids and bytes
-		st := &types.Stat{Path: p, Mode: vh_modeFor(class, 0755), Uid: uint32(len(src) + 1), ModTime: vh_mtimeChoices[len(src)%2]}
+		st := &types.Stat{Path: p, Mode: vh_modeFor(class, 0755), Uid: uint32(len(src) + 1), ModTime: vh_mtimes()[len(src)%2]}
 		e := &vh_srcEnt{stat: st}
 		if class == vh_clsFile {
 			e.data = v.Bytes("data", v.Choose("size", maxb+1))
